@@ -26,6 +26,8 @@ CHECKS = {
          "for every enumerated (non-singular term, algorithm pair) slogdet's sign and log-magnitude and logdet are compared with the determinant of the exact reference matrix"),
  "C08": ("square operator terms (depth<=2, incl. square composites of rectangular factors) x EVERY offset -n<k<n x {omitted, Exact, Auto}; probing sizes on both sides of the block size 100; numpy.diag of the reference + differential against probing on no_dispatch(A)",
          "for every enumerated term, every offset and every exact algorithm setting diag and trace are compared (value, length, dtype) with the reference matrix, and every structural rule with the generic probing algorithm on the same operator"),
+ "C11": ("positive-definite (cholesky) and non-singular (plu) operator terms over Dense/Identity/Diagonal/ScalarMul/... with Kronecker (2-3 factors) and BlockDiag (multiplicities) nestings to depth 2; triangularity, reconstruction and structure of the returned factors",
+         "for every enumerated term the returned factors are densified and checked for exact triangularity, permutation-matrix form, reconstruction of the reference matrix, and (for Kronecker / BlockDiag inputs) factor-wise structure"),
 }
 PENDING = {}
 props = [json.loads(l) for l in open(os.path.join(ROOT, "properties.jsonl"))]
